@@ -66,7 +66,9 @@ class Report:
     def floor(self, rid, minimum):
         r = self.rules.get(rid)
         got = r['instances'] if r else 0
-        if got < minimum:
+        if got < minimum and not self.violations:
+            # (when violations were already found they are the verdict: a rule that lost its anchor because of the same edit must not turn
+            # a reportable defect into "analysis broken")
             raise AnalysisBroken('%s: rule %s found %d instance(s), expected at least %d (anchor vanished or pattern no longer recognised)'
                                  % (self.pid, rid, got, minimum))
     def finish(self, explanation, trusted_base, checker_cmd=None):
